@@ -19,6 +19,7 @@ import contextlib
 import copy
 import io
 import itertools
+import os
 import json
 import re
 import time
@@ -173,6 +174,28 @@ def dy(r, lo, hi, bits):
     return r.randint(int(np.ceil(lo * n)), int(np.floor(hi * n))) / n
 
 
+def add_history_flags(r, case, dim, ncls, off, size):
+    """process history that is part of the replay: what the CALLER does with its own arrays and with returned objects,
+    a second call of the learning routine, and a sibling object that is alive (and works) at the same time"""
+    case["clobber_ctor"] = r.random() < 0.3          # the caller overwrites the arrays it built the constructor DataSet from
+    case["perform_twice"] = r.random() < 0.1
+    if r.random() < 0.2 and dim >= 2:
+        n = r.randint(20, 40)
+        sdata = [[off[d] + size[d] * dy(r, 0, 1, 6) for d in range(dim)] + [i % ncls] for i in range(n)]
+        case["sibling"] = {"data": sdata, "p": r.choice([1.0, 0.75]),
+                           "batch": [[off[d] + size[d] * dy(r, 0, 1, 6) for d in range(dim)] + [r.randrange(ncls)] for _ in range(r.randint(3, 8))]}
+
+
+def add_op_flags(r, case):
+    for op in case["ops"]:
+        op["repeat"] = r.choice([0, 0, 1, 2])          # the same request again, immediately: same answer, nothing stored changes
+        op["clobber"] = r.random() < 0.3               # afterwards the caller overwrites its batch arrays / the DataSet / the result
+        op["poke"] = r.choice([None, None, None, "testing", "learning", "omitted", "classes", "range", "factor"])
+        op["sib"] = r.random() < 0.5                   # the sibling object works before this request
+        op["print_output"] = r.random() < 0.3          # test_data(print_output=True, print_incorrect_points=...)
+        op["print_eval"] = r.random() < 0.15           # print_evaluation() / get_number_of_sparse_grid_points() / get_time_used() first
+
+
 def gen_intgrid_case(ctx):
     """integer-valued features 0..16 (value 8 = exactly the centre of the learned range = scaled coordinate 0.5, a grid
     line of every component grid), standard learning with levels 3..5 so that the scheme contains component grids with
@@ -189,6 +212,7 @@ def gen_intgrid_case(ctx):
             "learn": {"kind": "std", "masslumping": True, "lambd": r.choice([0.0, 0.0, 0.01]), "lmin": 3, "lmax": 5,
                       "one_vs_others": False},
             "ops": [], "reeval_learning": r.random() < 0.5}
+    add_history_flags(r, case, 2, ncls, [0.0, 0.0], [16.0, 16.0])
     vals = [8.0, 8.0, 8.0, 4.0, 12.0, 2.0, 14.0, 6.0, 10.0]
     for _ in range(r.randint(2, 3)):
         rows = []
@@ -203,6 +227,16 @@ def gen_intgrid_case(ctx):
             rows.append(p + [r.choice(list(range(ncls)) + [-1])])
         case["ops"].append({"op": r.choice(["call", "test"]), "mode": "gridline", "data": rows, "pre": None,
                             "print_removed": True, "reeval": True})
+    if r.random() < 0.25:
+        # 3-D variant: levels 3..4, component grids (3,3,4) = 735 points and (3,3,3) = 343 points
+        case["dim"] = 3
+        case["data"] = [row[:2] + [float(r.choice([0, 4, 8, 8, 12, 16]))] + [row[-1]] for row in data]
+        case["data"][0][2], case["data"][1][2] = 0.0, 16.0
+        case["learn"]["lmax"] = 4
+        case.pop("sibling", None)
+        for op in case["ops"]:
+            op["data"] = [row[:2] + [float(r.choice([8, 8, 4, 12, 3.5, 10.25]))] + [row[-1]] for row in op["data"]]
+    add_op_flags(r, case)
     return case
 
 
@@ -212,12 +246,18 @@ def gen_case(ctx, k_case):
     if k_case < 2 or r.random() < 0.04:
         return gen_intgrid_case(ctx)
     stream = "learned" if r.random() < 0.45 else "scripted"
-    dim = r.choice([2] * 12 + [3, 3, 1])
+    dim = r.choice([2] * 12 + [3, 3, 1, 4])
     ncls = r.choice([2, 2, 3, 3, 4])
     n = r.randint(40, 120) if stream == "learned" else r.randint(6, 60)
     # affine placement of the data (offset and size dyadic) so that lo / hi are not 0 / 1
     off = [r.choice([0.0, 0.0, -3.0, 0.5, 10.0, -0.125]) for _ in range(dim)]
     size = [r.choice([1.0, 1.0, 2.0, 0.5, 8.0, 0.25]) for _ in range(dim)]
+    extreme = r.random() < 0.12
+    if extreme:
+        # scale extremes (dyadic): tiny / huge ranges, boxes far from the origin on both sides (|a| / (b - a) up to 2^13)
+        for d in range(dim):
+            size[d] = 2.0 ** r.choice([-40, -30, -20, -10, 0, 10, 20])
+            off[d] = size[d] * r.choice([0.0, 8192.0, -8192.0, 1024.0, -4096.0, 0.5])
     overlap = r.random() < 0.4
     centers = [[r.choice([0.25, 0.75, 0.5]) for _ in range(dim)] for _ in range(ncls)]
     spread = 0.35 if overlap else 0.15
@@ -244,7 +284,7 @@ def gen_case(ctx, k_case):
     if r.random() < 0.01:   # nothing labelled: refused by the constructor
         for row in data:
             row[-1] = -1
-    if r.random() < 0.05:   # a constant dimension (scaler's zero-width convention)
+    if r.random() < 0.05 and not extreme:   # a constant dimension (scaler's zero-width convention; far from the origin it only measures float cancellation)
         d0 = r.randrange(dim)
         for row in data:
             row[d0] = off[d0]
@@ -267,14 +307,24 @@ def gen_case(ctx, k_case):
                  "one_vs_others": (labelmode == "contiguous" and r.random() < 0.15)}
         if kind == "dimwise":
             learn["max_evaluations"] = r.choice([16, 32, 64])
-            learn["one_vs_others"] = False
+        # further options, every one through every route (testing part at learning, __call__, test_data, evaluate)
+        learn["reuse_old_values"] = r.random() < 0.15
+        if kind == "std":
+            learn["pre_scaled_data"] = r.random() < 0.1
+        else:
+            # (numeric_calculation=True is not exercised: the nquad integrals of the R matrix take 10-40 s per learning even at levels 1..2)
+            if dim <= 2 and r.random() < 0.15:
+                learn.update({"rebalancing": True, "lmax": learn["lmin"] + 1, "max_evaluations": min(32, learn["max_evaluations"])})
+        if dim == 4 or (dim == 3 and kind == "dimwise"):
+            learn["lmin"], learn["lmax"] = 1, 2          # (3-D dimension-wise learning at levels 2..4 takes ~45 s)
     else:
         g = r.choice([2, 3, 4])
         learn = {"kind": "scripted", "g": g,
                  "tables": [[r.choice([0.0, 0.5, 1.0, 1.0, 1.5, 2.0, -0.5]) for _ in range(g ** dim)] for _ in range(6)]}
     case = {"stream": stream, "dim": dim, "data": data, "range": rng_given, "p": p, "even": even,
             "shuffle": shuffle_seed, "learn": learn, "ops": [], "reeval_learning": r.random() < 0.5}
-    if rng_given is None and r.random() < 0.15:
+    add_history_flags(r, case, dim, ncls, off, size)
+    if rng_given is None and not extreme and r.random() < 0.15:      # (an owner's shift of a tiny range would push |a| / (b - a) to 1e9)
         # the owner has scaled the data set before handing it over (scale_range / scale_factor / shift_value, scalar and array)
         kind = r.choice(["range", "range", "factor", "factor", "shift"])
         if kind == "range":
@@ -371,6 +421,7 @@ def gen_case(ctx, k_case):
         if op["op"] != "evaluate":
             op["reeval"] = True
             break
+    add_op_flags(r, case)
     return case
 
 
@@ -420,7 +471,8 @@ class Runner:
         kw = {}
         if rng_given:
             kw["data_range"] = (np.array(rng_given[0], dtype=np.float64), np.array(rng_given[1], dtype=np.float64))
-        ds = deml.DataSet((X.copy(), y.copy()), "c19")
+        Xc, yc = X.copy(), y.copy()
+        ds = deml.DataSet((Xc, yc), "c19")
         # a constructor data set that its OWNER has already scaled (marked `is_scaled()`): the coordinates the owner hands over
         # are the data; the learning scaling must be fitted to THEM, and later batches arrive in the same coordinates
         self.owner_map = None
@@ -452,6 +504,26 @@ class Runner:
                                                        shuffle_data=case["shuffle"] is not None, **kw))
         except Exception as e:  # noqa: BLE001
             impl_err = err_kind(e)
+        if case.get("clobber_ctor") and impl_err is None:
+            # the caller reuses its arrays (and the DataSet it handed over) for something else
+            Xc[:] = 7.0e5
+            yc[:] = 0
+            try:
+                ds[0][:] = -3.0e5
+                ds[1][:] = 0
+            except Exception:  # noqa: BLE001
+                pass
+            if rng_given:
+                keep = [np.array(v, copy=True) for v in clf._data_range]
+                for v in kw["data_range"]:
+                    v[:] = v * 3.0 - 1.0
+                if any(not np.array_equal(v, w) for v, w in zip(clf._data_range, keep)):
+                    # the caller overwriting its own data_range arrays is not an evaluate/test call: outside C19's
+                    # quantifier ("every sequence of later evaluate/test calls") -> counted, not a violation (lead's ruling)
+                    ctx.count("kept_by_reference_constructor-data_range")
+                    for v, w in zip(clf._data_range, keep):
+                        v[:] = w
+            ctx.count("clobber_ctor")
         rstr = "-" if not rng_given else fmt_pt(rng_given[0]) + "|" + fmt_pt(rng_given[1])
         m1 = drv.ask("stage1 %s %s" % (rstr, fmt_data([(row[:-1], row[-1]) for row in data])))
         if impl_err is not None:
@@ -550,23 +622,48 @@ class Runner:
             elif lk["kind"] == "std":
                 self.scripted = None
                 quiet(lambda: clf.perform_classification(masslumping=lk["masslumping"], lambd=lk["lambd"], minimum_level=lk["lmin"],
-                                                         maximum_level=lk["lmax"], one_vs_others=lk["one_vs_others"], print_metrics=False))
+                                                         maximum_level=lk["lmax"], one_vs_others=lk["one_vs_others"],
+                                                         reuse_old_values=lk.get("reuse_old_values", False),
+                                                         pre_scaled_data=lk.get("pre_scaled_data", False), print_metrics=False))
             else:
                 self.scripted = None
                 quiet(lambda: clf.perform_classification_dimension_wise(masslumping=lk["masslumping"], lambd=lk["lambd"],
                                                                         minimum_level=lk["lmin"], maximum_level=lk["lmax"],
-                                                                        max_evaluations=lk["max_evaluations"], print_metrics=False))
+                                                                        max_evaluations=lk["max_evaluations"],
+                                                                        one_vs_others=lk.get("one_vs_others", False),
+                                                                        reuse_old_values=lk.get("reuse_old_values", False),
+                                                                        numeric_calculation=lk.get("numeric_calculation", False),
+                                                                        rebalancing=lk.get("rebalancing", False), print_metrics=False))
         except Exception as e:  # noqa: BLE001
             ctx.count("learning_failed_" + type(e).__name__)
             self.viol("learning-raises", {"kind": lk["kind"], "error": type(e).__name__}, {"error": str(e)[:300]})
             return
         ctx.count("learn_" + lk["kind"])
+        for opt in ("reuse_old_values", "pre_scaled_data", "numeric_calculation", "rebalancing", "one_vs_others"):
+            if lk.get(opt):
+                ctx.count("option_%s_%s" % (lk["kind"], opt))
         ctx.count("learn_seconds_x100", int(100 * (time.time() - t0)))
         self.clf = clf
         self.cls = clf.get_density_estimation_results()[0]
         if len(self.cls) != k:
             self.viol("one-classificator-per-class", {}, {"classificators": len(self.cls), "classes": k})
             return
+        self.check_trained_on(iL)
+        if case.get("perform_twice"):
+            # the learning routine called a second time: refused, nothing changes
+            before = (list(clf.get_calculated_classes_testset()), len(clf._densities_testset), len(clf._classificators))
+            try:
+                quiet(lambda: clf.perform_classification(print_metrics=False))
+                self.viol("second-learning-accepted", {}, {})
+            except Exception as e:  # noqa: BLE001
+                if err_kind(e) != "twice":
+                    self.viol("learning-raises", {"kind": "second", "error": type(e).__name__}, {"error": str(e)[:200]})
+            if before != (list(clf.get_calculated_classes_testset()), len(clf._densities_testset), len(clf._classificators)):
+                self.viol("second-learning-changed-state", {}, {})
+            ctx.count("perform_twice")
+        self.sibling = None
+        if case.get("sibling") and lk["kind"] != "scripted":
+            self.make_sibling(case["sibling"], lk)
         self.table = {}
         if self.model_on:
             if iT and len(clf._densities_testset) >= len(iT):
@@ -604,9 +701,12 @@ class Runner:
                 break
             if op["op"] == "evaluate":
                 self.check_evaluate("history")
+                self.check_evaluate_repeat()
                 ctx.count("op_evaluate")
             else:
                 self.do_op(op)
+        if getattr(self, "sibling", None) is not None:
+            self.sibling_work("end")
         if not self.stop:
             self.recheck_earlier()
 
@@ -632,8 +732,15 @@ class Runner:
         jumps of the density between two float roundings of the same exact position (the implementation scales learning
         data with the scaler's formula and later data with shift / scale / shift); a row that cannot be reproduced at
         its own float position is a violation (history-dependent densities)."""
+        batch = {}
         for p, row, fp in zip(exact_pts, rows, float_pts):
             key = tuple(p)
+            if key in batch and batch[key] != row and not all(near(x, y2, 1e-9) for x, y2 in zip(batch[key], row)):
+                # the same exact position twice in ONE batch at two float roundings (a constructor sample scaled by the scaler's
+                # formula and its copy scaled by shift / scale / shift) on a jump of the density oracle: the model can hold
+                # one row per position only
+                self.ambiguous = True
+            batch[key] = row
             if key in self.table:
                 row0, fp0 = self.table[key]
                 if row0 == row:
@@ -874,20 +981,35 @@ class Runner:
         before_sizes = (clf._omitted_data.get_length(), clf._testing_data.get_length())
         before_results = copy.deepcopy([(h["classes"], h["coords"]) for h in self.history])
         live_results = [(h["classes_live"], h["coords_live"]) for h in self.history]
+        if op.get("sib") and self.sibling is not None:
+            self.sibling_work("before-" + op["op"])
+        if op.get("print_eval"):
+            self.rare_toggles()
         impl_err = None
+        p_out = bool(op.get("print_output")) and op["op"] == "test"
         try:
             if op["op"] == "call":
                 res, out = quiet(lambda: clf(d, print_removed=op["print_removed"]))
             else:
-                res, out = quiet(lambda: clf.test_data(d, print_output=False, print_removed=op["print_removed"]))
+                res, out = quiet(lambda: clf.test_data(d, print_output=p_out, print_removed=op["print_removed"],
+                                                       print_incorrect_points=p_out and op.get("repeat", 0) > 0))
         except Exception as e:  # noqa: BLE001
             impl_err = err_kind(e)
             out = ""
+        if p_out and impl_err is None:
+            # the printed summary is the returned one
+            g = re.search(r"Number of wrong mappings: (\d+)\s+Number of total mappings: (\d+)\s+Percentage of correct mappings: (\S+)", out)
+            want = (res["Wrong mappings"], res["Total mappings"], res["Percentage correct (str)"])
+            if not g or (int(g.group(1)), int(g.group(2)), g.group(3)) != want:
+                self.viol("printed-summary", {"op": "test"}, {"printed": g.groups() if g else None, "returned": want})
+            ctx.count("test_print_output")
         ctx.count("op_%s_%s" % (op["op"], op.get("mode")))
         ctx.count("result_%s_%s" % (op["op"], impl_err.split(":")[0] if impl_err else "ok"))
         samedim = dim_in == len(self.olo)
         pos = self.positions(rows) if (rows and samedim) else []
         tags = {"op": op["op"], "mode": op.get("mode"), "pre": pre is not None, "dim": len(self.olo)}
+        if p_out:
+            tags["print_incorrect_points"] = op.get("repeat", 0) > 0
         mpts = drv.ask("pts %s %s" % (prestr, dstr)) if self.model_on else ""
         # ---- exceptions: compare the kind with the model; decide which are violations of the property text
         if impl_err == "scalingMismatch" and op.get("own") and op["own"]["src"] == "testing" and self.initial_testing_empty:
@@ -898,7 +1020,7 @@ class Runner:
             self.after_op(before_classes, before_results, live_results, 0)
             return
         if impl_err is not None:
-            if self.model_on:
+            if self.model_on and not (p_out and impl_err.startswith("other:")):
                 self.cmp("op-error", "err " + impl_err, drv.ask("%s %s %s" % (op["op"], prestr, dstr)))
             n_in = sum(1 for _, inr, mg in pos if inr)
             n_amb = sum(1 for _, inr, mg in pos if mg < AMBIG)
@@ -914,6 +1036,9 @@ class Runner:
             elif not legit and n_amb == 0:
                 self.viol("call-raises", dict(tags, error=impl_err.split(":")[0] + (":" + impl_err.split(":")[1] if impl_err.startswith("other") else "")),
                           {"error": impl_err, "in_range": n_in})
+            if p_out and impl_err.startswith("other:"):
+                self.stop = True      # raised while printing, after the classes were stored: the rest of the history is void
+                return
             self.after_op(before_classes, before_results, live_results, 0)
             return
         self.nontrivial = True
@@ -961,6 +1086,204 @@ class Runner:
                              "classes_live": res[1] if op["op"] == "call" else None,
                              "coords_live": res[0] if op["op"] == "call" else None})
         self.after_op(before_classes, before_results, live_results, n_new)
+        self.post_op(op, d, rows, kept_impl, classes_now, res)
+
+    def post_op(self, op, d, rows, kept_impl, classes_now, res):
+        """object history after a successful request: the same request again (same answer, nothing stored changes), the caller
+        overwriting its own arrays / the DataSet it handed in / the returned result, the caller writing into what getters return"""
+        ctx, clf = self.ctx, self.clf
+        want = list(classes_now)
+        for _ in range(op.get("repeat", 0)):
+            stored = (list(clf.get_calculated_classes_testset()), len(clf._densities_testset), clf._testing_data.get_length(),
+                      clf._omitted_data.get_length())
+            d2, rows2 = self.make_input(op, "repeat")
+            if rows2 is None or (op.get("own") and rows2 != rows):
+                break
+            try:
+                r2, _ = quiet(lambda: clf(d2, print_removed=False))
+            except Exception as e:  # noqa: BLE001
+                self.viol("repeated-request", {"how": "raises", "op": op["op"]}, {"error": str(e)[:200]})
+                break
+            got = [int(c) for c, l in zip(r2[1], d2[1]) if op["op"] == "call" or l >= 0]
+            pts2 = [list(q) for q, l in zip(r2[0], d2[1]) if op["op"] == "call" or l >= 0]
+            pts1 = [list(q) for q, l in kept_impl if op["op"] == "call" or l >= 0]
+            if got != want or pts2 != pts1:
+                self.viol("repeated-request", {"how": "differs", "op": op["op"]}, {"first": want[:30], "again": got[:30]})
+            if stored != (list(clf.get_calculated_classes_testset()), len(clf._densities_testset), clf._testing_data.get_length(),
+                          clf._omitted_data.get_length()):
+                self.viol("repeated-request", {"how": "changed-stored-state", "op": op["op"]}, {})
+            ctx.count("repeated_requests")
+        if op.get("clobber") and not op.get("own"):
+            for arr, val in ((d[0], 4.0e5), (d[1], 0)):
+                try:
+                    arr[:] = val
+                except Exception:  # noqa: BLE001
+                    pass
+            if op["op"] == "call" and self.history:
+                try:
+                    res[0][:] = -1.0
+                    res[1][:] = 0
+                except Exception:  # noqa: BLE001
+                    pass
+                self.history[-1]["classes_live"] = None      # (the caller itself has overwritten this result)
+            ctx.count("clobber_batch")
+            self.check_stored()
+        if op.get("poke"):
+            self.poke_getter(op["poke"])
+
+    def poke_getter(self, which):
+        """the caller writes into what a getter returned; the object's own state must not follow (it is restored afterwards so that
+        the rest of the history is judged on the intact object)"""
+        clf = self.clf
+        internal = {"testing": clf._testing_data, "learning": clf._learning_data, "omitted": clf._omitted_data,
+                    "original": clf._original_data}
+        if which in internal:
+            ds_int = internal[which]
+            if ds_int.is_empty():
+                return
+            snap = (np.array(ds_int[0], copy=True), np.array(ds_int[1], copy=True))
+            g = getattr(clf, "get_%s_data" % which)()
+            try:
+                g[0][:] = g[0] + 1.0
+                g[1][:] = 0
+            except Exception:  # noqa: BLE001
+                return
+            changed = not (np.array_equal(ds_int[0], snap[0]) and np.array_equal(ds_int[1], snap[1]))
+            if changed:
+                ds_int[0][:] = snap[0]
+                ds_int[1][:] = snap[1]
+        elif which == "classes":
+            snap = np.array(clf._calculated_classes_testset, copy=True)
+            g = clf.get_calculated_classes_testset()
+            if len(g) == 0:
+                return
+            g[:] = 99
+            changed = not np.array_equal(clf._calculated_classes_testset, snap)
+            if changed:
+                clf._calculated_classes_testset[:] = snap
+        else:
+            arrs = list(clf._data_range) if which == "range" else [clf._scale_factor]
+            snap = [np.array(a, copy=True) for a in arrs]
+            g = clf.get_dataset_range() if which == "range" else [clf.get_scale_factor()]
+            for a in g:
+                try:
+                    a[:] = a * 2.0 + 1.0
+                except Exception:  # noqa: BLE001
+                    return
+            changed = any(not np.array_equal(a, b) for a, b in zip(arrs, snap))
+            if changed:
+                for a, b in zip(arrs, snap):
+                    a[:] = b
+        self.ctx.count("poke_" + which)
+        if changed:
+            # writing into an array a getter returned is not an evaluate/test call: outside C19's quantifier -> counted only
+            self.ctx.count("getter_returns_internal_state_" + which)
+
+    def rare_toggles(self):
+        """rarely used public calls in the middle of a history: no exception on a learned object with a test set, no change"""
+        clf = self.clf
+        stored = (list(clf.get_calculated_classes_testset()), len(clf._densities_testset))
+        try:
+            quiet(lambda: clf.get_number_of_sparse_grid_points()) if self.scripted is None else None
+            clf.get_time_used()
+            if not clf._testing_data.is_empty() and clf._testing_data.get_length() == len(clf._calculated_classes_testset):
+                _, out = quiet(lambda: clf.print_evaluation(print_incorrect_points=True))
+                ev = clf.evaluate()
+                g = re.search(r"Number of wrong mappings: (\d+)\s+Number of total mappings: (\d+)", out)
+                if not g or (int(g.group(1)), int(g.group(2))) != (ev["Wrong mappings"], ev["Total mappings"]):
+                    self.viol("printed-summary", {"op": "print_evaluation"}, {"printed": g.groups() if g else None})
+        except Exception as e:  # noqa: BLE001
+            self.viol("rare-call-raises", {"error": type(e).__name__}, {"error": str(e)[:200]})
+        if stored != (list(clf.get_calculated_classes_testset()), len(clf._densities_testset)):
+            self.viol("rare-call-changed-state", {}, {})
+        self.ctx.count("rare_toggles")
+
+    def check_evaluate_repeat(self):
+        """evaluate() twice in a row: the same summary, nothing stored changes"""
+        clf = self.clf
+        stored = (list(clf.get_calculated_classes_testset()), len(clf._densities_testset), clf._testing_data.get_length())
+        outs = []
+        for _ in range(2):
+            try:
+                ev = clf.evaluate()
+                outs.append({k: v for k, v in ev.items() if k != "Time used"})
+            except Exception as e:  # noqa: BLE001
+                outs.append("err " + err_kind(e))
+        if outs[0] != outs[1]:
+            self.viol("repeated-request", {"how": "differs", "op": "evaluate"}, {"first": str(outs[0])[:200], "again": str(outs[1])[:200]})
+        if stored != (list(clf.get_calculated_classes_testset()), len(clf._densities_testset), clf._testing_data.get_length()):
+            self.viol("repeated-request", {"how": "changed-stored-state", "op": "evaluate"}, {})
+        self.check_stored()
+
+    def check_trained_on(self, iL):
+        """the j-th classificator was trained on the learning samples of the j-th label (the association the returned class
+        relies on): its DensityEstimation object holds exactly those samples"""
+        try:
+            ops = self.clf.get_density_estimation_results()[1]
+        except Exception:  # noqa: BLE001
+            return
+        if self.scripted is not None or any(o is None for o in ops):
+            return
+        for j, o in enumerate(ops):
+            lab = self.class_labels[j] if j < len(self.class_labels) else None
+            want = [(p, 0) for p, l in iL if l == lab]
+            dat = np.asarray(o.data)
+            cls = getattr(o, "classes", None)
+            if cls is not None:
+                dat = dat[np.asarray(cls) > 0]      # one-vs-others: the samples of the class itself carry the positive weight
+            got = [(list(q), 0) for q in dat]
+            if not multiset_close(got, want):
+                self.viol("classificator-trained-on-its-class", {"kind": self.case["learn"]["kind"], "one_vs_others": cls is not None},
+                          {"classificator": j, "label": lab, "its_samples": len(got), "samples_of_the_label": len(want)})
+                return
+        self.ctx.count("trained_on_checks")
+
+    def make_sibling(self, spec, lk):
+        """a second Classification object, learned with the same levels (equal level-vector keys) on other data, alive while
+        the first one is used"""
+        import sparseSpACE.DEMachineLearning as deml
+        dim = len(self.olo)
+        Xs = np.array([row[:-1] for row in spec["data"]], dtype=np.float64).reshape(len(spec["data"]), dim)
+        ys = np.array([row[-1] for row in spec["data"]], dtype=np.int64)
+        try:
+            sib, _ = quiet(lambda: deml.Classification(deml.DataSet((Xs, ys), "sibling"), split_percentage=spec["p"], shuffle_data=False))
+            if lk["kind"] == "std":
+                quiet(lambda: sib.perform_classification(masslumping=lk["masslumping"], lambd=lk["lambd"], minimum_level=lk["lmin"],
+                                                         maximum_level=lk["lmax"], print_metrics=False))
+            else:
+                quiet(lambda: sib.perform_classification_dimension_wise(masslumping=lk["masslumping"], lambd=lk["lambd"],
+                                                                        minimum_level=lk["lmin"], maximum_level=lk["lmax"],
+                                                                        max_evaluations=lk["max_evaluations"], print_metrics=False))
+        except Exception as e:  # noqa: BLE001
+            self.viol("sibling-raises", {"error": type(e).__name__}, {"error": str(e)[:200]})
+            return
+        self.sibling = {"clf": sib, "spec": spec, "first": None}
+        self.ctx.count("sibling_objects")
+        self.sibling_work("after-learning")
+        # the first object must not have noticed: the scaling it stores and its stored classes / densities are re-read
+        self.after_op(list(self.clf.get_calculated_classes_testset()), [], [], 0) if hasattr(self, "snapshot_scaling") else None
+
+    def sibling_work(self, where):
+        import sparseSpACE.DEMachineLearning as deml
+        sb = self.sibling
+        rows = sb["spec"]["batch"]
+        Xb = np.array([row[:-1] for row in rows], dtype=np.float64)
+        yb = np.array([row[-1] for row in rows], dtype=np.int64)
+        try:
+            r, _ = quiet(lambda: sb["clf"](deml.DataSet((Xb, yb), "sb"), print_removed=False))
+        except Exception as e:  # noqa: BLE001
+            if sb["first"] != "err":
+                if sb["first"] is None and "out of bounds" in str(e):
+                    sb["first"] = "err"
+                else:
+                    self.viol("sibling-interference", {"how": "raises"}, {"where": where, "error": str(e)[:200]})
+            return
+        got = ([list(q) for q in r[0]], [int(c) for c in r[1]])
+        if sb["first"] is None:
+            sb["first"] = got
+        elif sb["first"] != got:
+            self.viol("sibling-interference", {"how": "sibling-result-changed"}, {"where": where, "first": str(sb["first"][1])[:100], "now": str(got[1])[:100]})
+        self.ctx.count("sibling_work")
 
     def model_op(self, op, rows, prestr, dstr, mpts, kept_impl, classes_now, res, reported):
         ctx, drv, clf = self.ctx, self.drv, self.clf
@@ -1124,10 +1447,18 @@ def run_case(ctx, drv, case):
     rn = Runner(ctx, drv, case)
     try:
         rn.run()
-    except Exception:  # noqa: BLE001
+    except Exception as e:  # noqa: BLE001
         import traceback
+        import common
         rn.ok = False
-        ctx.corr_break("C19/harness-exception", case, traceback.format_exc()[-3000:])
+        tb = traceback.extract_tb(e.__traceback__)
+        inside = [f for f in tb if os.path.realpath(f.filename).startswith(os.path.realpath(common.REPO))]
+        if inside:
+            # an exception of the implementation on a generated (valid) input is a failing input, not a harness crash
+            ctx.violation("implementation-raises", {"error": type(e).__name__, "where": inside[-1].name}, case,
+                          {"error": str(e)[:300], "frame": "%s:%d %s" % (os.path.basename(inside[-1].filename), inside[-1].lineno, inside[-1].name)})
+        else:
+            ctx.corr_break("C19/harness-exception", case, traceback.format_exc()[-3000:])
     return rn
 
 
@@ -1145,7 +1476,7 @@ def run(ctx):
         "iteration order of Python sets (labels, boundary rows) is an input of the model, recomputed by the harness with the code's own expression",
     ]
     drv = ctx.driver("drv_c19")
-    budget = 75 if not thorough else 420
+    budget = 60 if not thorough else 420
     n = 400 if not thorough else 6000
     k = 0
     while k < n and ctx.time_left(budget) > 0:
